@@ -51,6 +51,19 @@ def cmd_check(args):
             st_ok, summary = selftest.run_for_property(pid, root, jobs=args.jobs)
             extra = {"selftest": summary}
             print(f"{pid}: self-test { {k: v for k, v in summary.items() if k != 'results'} }")
+        if tier == "thorough" and not args.no_selftest:
+            # invariance under behaviour-preserving rewrites of the whole package (shift / ast.unparse / renamed locals): recorded
+            # in the evidence and printed; it never changes the exit code (a rewrite that trips a rule is a defect of the checker)
+            from . import benign
+
+            base, _err = core.analyse(mod.check, root, "quick")
+            if base is not None:
+                inv = benign.invariance(pid, mod.check, root, base)
+                extra["invariance"] = inv
+                for row in inv:
+                    status = "error: " + row["error"] if "error" in row else (
+                        "same refutations" if not row["new_refutations"] else "NEW refutations: " + "; ".join(row["new_refutations"]))
+                    print(f"{pid}: invariance under `{row['mode']}` ({row['modules_rewritten']} modules rewritten in memory): {status}")
         code, _ = core.run_check(pid, mod.check, root, tier, write_evidence=not args.no_evidence, extra=extra)
         if code == 0 and not st_ok:
             bad = [r for r in summary["results"] if r["status"] in ("FAIL", "broken", "error")]
